@@ -41,6 +41,10 @@ pub enum T1 {
     Call(String),
     /// a nilary callable variable in a chain (called with nil, the flowing value is ignored)
     CallNil(String),
+    /// `^`: the enclosing function applied again to the flowing value, in place of the current frame
+    TailSelf,
+    /// `__name__`: a builtin applied to the flowing value
+    BCall(String),
 }
 
 #[derive(Clone, Debug, PartialEq)]
@@ -82,6 +86,8 @@ pub struct Gen<'a> {
     pub fns: bool,
     /// nesting depth of function bodies being generated (literals nest at most twice)
     pub body_depth: u32,
+    /// generate recursive count-down functions (`^`) and builtin calls (Compile4)
+    pub rec: bool,
 }
 
 impl<'a> Gen<'a> {
@@ -216,6 +222,111 @@ impl<'a> Gen<'a> {
         }
     }
 
+    /// a term of type integer: a literal, an integer variable, or `~` where an integer flows
+    fn int_term(&mut self, flow: Option<&Ty>) -> T1 {
+        let ints: Vec<String> = self.env.iter().filter(|(_, t)| *t == Ty::Int).map(|(n, _)| n.clone()).collect();
+        match self.r.below(3) {
+            0 if !ints.is_empty() => T1::Var(ints[self.r.usize(ints.len())].clone()),
+            1 if flow == Some(&Ty::Int) => T1::Ripple,
+            _ => self.int(),
+        }
+    }
+
+    /// sometimes code after the `^` (never reached: the tail call leaves the frame — the compiler emits it
+    /// all the same, and the model's `exit` outcome skips it). No pattern is applied to the result of `^`
+    /// itself: its static type is empty, and the compiler decides such a match statically (outside the model)
+    fn after_tail(&mut self, mut c: Vec<T1>, depth: u32) -> Vec<Vec<T1>> {
+        let m = self.env.len();
+        if self.r.chance(1, 5) {
+            let t = self.int_term(None);
+            c.push(t);
+        }
+        let mut steps = vec![c];
+        if self.r.chance(1, 5) {
+            let mut c2 = vec![self.int()];
+            if self.r.chance(1, 2) {
+                let (t, _) = self.term(Some(&Ty::Int), depth);
+                c2.push(t);
+            }
+            steps.push(c2);
+        }
+        self.env.truncate(m);
+        steps
+    }
+
+    /// `#P { … }` that calls itself with `^` on a strictly smaller non-negative count until the literal
+    /// pattern `0` catches it (call sites pass 0..4): the count is the integer parameter itself, or the
+    /// first field of an `[int, int]` parameter whose second field is an accumulator
+    fn rec_fn(&mut self, depth: u32) -> (Ty, Vec<(Vec<Vec<T1>>, Option<Vec<Vec<T1>>>)>) {
+        let sub = |x: T1| vec![T1::Tup(None, vec![vec![x], vec![T1::Int(1)]]), T1::BCall("integer_subtract".into())];
+        let mut body = vec![];
+        if self.r.chance(1, 2) {
+            let p = Ty::Int;
+            // base case(s)
+            let nk = 1 + self.r.usize(2);
+            let m = self.env.len();
+            let k = self.seq_in(Some(&p), depth, nk).0;
+            self.env.truncate(m);
+            body.push((vec![vec![T1::Match(Pat1::Top(Sub::Lit(0)))]], Some(k)));
+            if self.r.chance(1, 3) {
+                let m = self.env.len();
+                let k = self.seq_in(Some(&p), depth, 1).0;
+                self.env.truncate(m);
+                body.push((vec![vec![T1::Match(Pat1::Top(Sub::Lit(1 + self.r.range(0, 2))))]], Some(k)));
+            }
+            match self.r.below(3) {
+                0 => {
+                    // … | [~, 1] __integer_subtract__ ^
+                    let mut c = sub(T1::Ripple);
+                    c.push(T1::TailSelf);
+                    let steps = self.after_tail(c, depth);
+                    body.push((steps, None));
+                }
+                1 => {
+                    // … | =n => [n, 1] __integer_subtract__ ^
+                    self.counter += 1;
+                    let n = format!("n{}", self.counter);
+                    let mut c = sub(T1::Var(n.clone()));
+                    c.push(T1::TailSelf);
+                    self.env.push((n.clone(), Ty::Int));
+                    let steps = self.after_tail(c, depth);
+                    self.env.pop();
+                    body.push((vec![vec![T1::Match(Pat1::Top(Sub::Bind(n)))]], Some(steps)));
+                }
+                _ => {
+                    // … | [~, 1] __integer_subtract__ { =0 => k | ^ }: the tail call leaves a nested block
+                    let mut c = sub(T1::Ripple);
+                    let k = self.int();
+                    c.push(T1::Block(vec![
+                        (vec![vec![T1::Match(Pat1::Top(Sub::Lit(0)))]], Some(vec![vec![k]])),
+                        (vec![vec![T1::TailSelf]], None),
+                    ]));
+                    body.push((vec![c], None));
+                }
+            }
+            (p, body)
+        } else {
+            let p = Ty::Tup(None, vec![Ty::Int, Ty::Int]);
+            self.counter += 1;
+            let a = format!("a{}", self.counter);
+            let m = self.env.len();
+            self.env.push((a.clone(), Ty::Int));
+            let k = if self.r.chance(1, 2) { vec![vec![T1::Var(a.clone())]] } else { self.seq_in(Some(&Ty::Ok), depth, 1).0 };
+            self.env.truncate(m);
+            body.push((vec![vec![T1::Match(Pat1::Tup(None, vec![Sub::Lit(0), Sub::Bind(a)]))]], Some(k)));
+            self.counter += 1;
+            // a random first letter: the slots of one pattern are allotted in NAME order
+            let n = format!("{}{}", NAMES[self.r.usize(NAMES.len())], self.counter);
+            self.counter += 1;
+            let a = format!("{}{}", NAMES[self.r.usize(NAMES.len())], self.counter);
+            let op = ["integer_add", "integer_multiply", "integer_subtract"][self.r.usize(3)];
+            let acc = vec![T1::Tup(None, vec![vec![T1::Var(a.clone())], vec![T1::Var(n.clone())]]), T1::BCall(op.into())];
+            let c = vec![T1::Tup(None, vec![sub(T1::Var(n.clone())), acc]), T1::TailSelf];
+            body.push((vec![vec![T1::Match(Pat1::Tup(None, vec![Sub::Bind(n), Sub::Bind(a)]))]], Some(vec![c])));
+            (p, body)
+        }
+    }
+
     /// a literal value of a parameter type
     fn value_of(&mut self, ty: &Ty) -> T1 {
         match ty {
@@ -258,6 +369,20 @@ impl<'a> Gen<'a> {
             out.push(if before.is_static_nil() { T1::Call(g) } else { T1::CallNil(g) });
             return (out, Ty::Any);
         }
+        if self.rec && self.r.chance(1, 5) {
+            // `[x, y] __integer_op__` with integer terms x, y, possibly continued
+            let x = self.int_term(flow);
+            let y = self.int_term(flow);
+            let op = ["integer_add", "integer_subtract", "integer_multiply"][self.r.usize(3)];
+            let mut out = vec![T1::Tup(None, vec![vec![x], vec![y]]), T1::BCall(op.to_string())];
+            let mut ty = Ty::Int;
+            if self.r.chance(1, 3) {
+                let (t2, ty2) = self.term(Some(&Ty::Int), depth);
+                out.push(t2);
+                ty = ty2;
+            }
+            return (out, ty);
+        }
         let n = 1 + self.r.usize(if depth == 0 { 2 } else { 3 });
         let mut out = vec![];
         let mut cur: Option<Ty> = flow.cloned();
@@ -293,8 +418,15 @@ impl<'a> Gen<'a> {
                 let outer: Vec<String> = self.env.iter().map(|(n, _)| n.clone()).collect();
                 let mark = self.env.len();
                 self.body_depth += 1;
-                let nb = 1 + self.r.usize(2);
-                let mut body = vec![];
+                let recursive = self.rec && self.r.chance(1, 2);
+                let (p, rec_body) = if recursive {
+                    let (p, b) = self.rec_fn(depth.saturating_sub(1));
+                    (p, Some(b))
+                } else {
+                    (p, None)
+                };
+                let nb = if recursive { 0 } else { 1 + self.r.usize(2) };
+                let mut body = rec_body.unwrap_or_default();
                 for _ in 0..nb {
                     let m2 = self.env.len();
                     let nc = 1 + self.r.usize(2);
@@ -352,6 +484,7 @@ fn free_seq(s: &[Vec<T1>], outer: &[String], out: &mut Vec<String>) {
 
 fn free_term(t: &T1, outer: &[String], out: &mut Vec<String>) {
     match t {
+        T1::TailSelf | T1::BCall(_) => {}
         T1::Var(x) | T1::Call(x) | T1::CallNil(x) => {
             if outer.contains(x) && !out.contains(x) {
                 out.push(x.clone());
@@ -428,6 +561,8 @@ fn src_term(t: &T1) -> String {
         }
         T1::FnLit(p, bs, _) => format!("#{} {{ {} }}", src_ty(p), src_branches(bs)),
         T1::Call(x) | T1::CallNil(x) => x.clone(),
+        T1::TailSelf => "^".into(),
+        T1::BCall(n) => format!("__{n}__"),
         T1::Block(bs) => {
             let parts: Vec<String> = bs
                 .iter()
@@ -449,6 +584,8 @@ struct Ids {
     ti: usize,
     funs: Vec<usize>,
     fi: usize,
+    bis: Vec<usize>,
+    bi: usize,
 }
 
 impl Ids {
@@ -460,7 +597,14 @@ impl Ids {
             ti: 0,
             funs: code.iter().filter_map(|i| if let Instruction::Function(f) = i { Some(*f) } else { None }).collect(),
             fi: 0,
+            bis: code.iter().filter_map(|i| if let Instruction::Builtin(b) = i { Some(*b) } else { None }).collect(),
+            bi: 0,
         }
+    }
+    fn next_builtin(&mut self) -> Option<usize> {
+        let v = self.bis.get(self.bi).copied();
+        self.bi += 1;
+        v
     }
     fn next_const(&mut self) -> Option<usize> {
         let v = self.consts.get(self.ci).copied();
@@ -478,7 +622,7 @@ impl Ids {
         v
     }
     fn leftover(&self) -> bool {
-        self.ci < self.consts.len() || self.ti < self.tuples.len() || self.fi < self.funs.len()
+        self.ci < self.consts.len() || self.ti < self.tuples.len() || self.fi < self.funs.len() || self.bi < self.bis.len()
     }
 }
 
@@ -489,6 +633,8 @@ struct Sx<'a> {
     checks: Vec<Check>,
     fns: Vec<String>,
     fn_codes: Vec<String>,
+    /// builtin index → name, as used
+    bis: Vec<(usize, String)>,
     bad: Option<String>,
 }
 
@@ -499,6 +645,8 @@ pub enum Check {
     Fixed(usize, usize),
     /// function `fi` has this many captures
     Captures(usize, usize),
+    /// the builtin at this index has this name
+    Builtin(usize, String),
 }
 
 fn sx_chain(c: &[T1], ids: &mut Ids, cx: &mut Sx) -> Option<String> {
@@ -553,6 +701,15 @@ fn sx_term(t: &T1, ids: &mut Ids, cx: &mut Sx) -> Option<String> {
         T1::Ripple => "(~)".into(),
         T1::Var(x) => format!("(v {x})"),
         T1::Call(x) => format!("(call {x})"),
+        T1::TailSelf => "(tail)".into(),
+        T1::BCall(n) => {
+            let b = ids.next_builtin()?;
+            cx.checks.push(Check::Builtin(b, n.clone()));
+            if !cx.bis.iter().any(|(i, _)| *i == b) {
+                cx.bis.push((b, n.clone()));
+            }
+            format!("(bcall {b})")
+        }
         T1::CallNil(x) => {
             // the nil argument: `Tuple(NIL)` in the call sequence
             let t0 = ids.next_tuple()?;
@@ -630,6 +787,8 @@ pub fn show(i: &Instruction) -> String {
         Instruction::IsType(t) => format!("istype{t}"),
         Instruction::Function(f) => format!("function{f}"),
         Instruction::Call => "call".into(),
+        Instruction::TailCall(true) => "tailself".into(),
+        Instruction::Builtin(b) => format!("builtin{b}"),
         other => format!("<{other:?}>"),
     }
 }
@@ -640,6 +799,8 @@ pub struct FragCase {
     pub chains: Option<String>,
     /// `(fns …)` argument of the `compile3` / `eval3` requests (empty table if there are no functions)
     pub fns: String,
+    /// `(bis (<index> <name>) …)` argument of the `eval4` request
+    pub bis: String,
     pub real: String,
     pub checks_ok: bool,
     pub note: String,
@@ -659,7 +820,7 @@ pub fn prepare(seq: &[Vec<T1>], unit: &qverif::run::Unit) -> FragCase {
         &ins[..]
     };
     let mut ids = Ids::of(body);
-    let mut cx = Sx { bc: &bc, checks: vec![], fns: vec![], fn_codes: vec![], bad: None };
+    let mut cx = Sx { bc: &bc, checks: vec![], fns: vec![], fn_codes: vec![], bis: vec![], bad: None };
     let mut parts = vec![];
     let mut complete = true;
     for c in seq {
@@ -679,6 +840,7 @@ pub fn prepare(seq: &[Vec<T1>], unit: &qverif::run::Unit) -> FragCase {
     }
     let fns = format!("(fns {})", cx.fns.join(" "));
     let fn_codes = cx.fn_codes.clone();
+    let bis = format!("(bis {})", cx.bis.iter().map(|(i, n)| format!("({i} {n})")).collect::<Vec<_>>().join(" "));
     let checks = std::mem::take(&mut cx.checks);
     for c in &checks {
         match c {
@@ -701,6 +863,12 @@ pub fn prepare(seq: &[Vec<T1>], unit: &qverif::run::Unit) -> FragCase {
                     note = format!("a match template uses tuple id {got} where {want} is expected");
                 }
             }
+            Check::Builtin(b, name) => {
+                if bc.builtins.get(*b).map(|x| x.name.as_str()) != Some(name.as_str()) {
+                    checks_ok = false;
+                    note = format!("builtin {b} is not {name}");
+                }
+            }
             Check::Captures(fi, n) => {
                 if bc.functions.get(*fi).map(|f| f.captures) != Some(*n) {
                     checks_ok = false;
@@ -721,7 +889,7 @@ pub fn prepare(seq: &[Vec<T1>], unit: &qverif::run::Unit) -> FragCase {
         real.push_str(" ; ");
         real.push_str(fc);
     }
-    FragCase { source, chains, fns, real, checks_ok, note }
+    FragCase { source, chains, fns, bis, real, checks_ok, note }
 }
 
 /// the value in the id-based form the driver's `eval1` prints
